@@ -18,6 +18,12 @@ def probe(pytrs):
         ('T154-R97 Sec 14: NE/4, T154S-R97E Sec 14: NE/4', 'segment'),
         ('Township 154, Range 97 West, Sections 1 - 3: Lot 1(40.00), N/2 of Lot 2', 'clean_qq,qq_depth.1'),
         ('T154-R97 Sec 14: NE/4', 's,e'),
+        # texts whose result would change if an optional mode (ocr_scrub, clean_qq, sec_within, segment, colon modes,
+        # forced layout, depth settings) of an *earlier* parse were still in force
+        ('Township lS4 North, Range 97 West\nSection 14: NE/4', None),
+        ('TI54N-R97W Sec 14: NE, N/2 of Lot 1, N/2NE/4NE/4', None),
+        ('T154N-R97W That part of the NE/4 of Sec 14 lying north of the river', None),
+        ('T154N-R97W Sec 14 NE/4, Sec 15: W/2, NW/4 of Sec 16, T155N-R97W', None),
     ]:
         d = P.PLSSDesc(txt, parse_qq=True, config=cfg)
         out.append([[t.trs, t.twp, t.rge, t.sec, t.twp_num, t.twp_ns, t.rge_num, t.rge_ew, t.sec_num, t.desc, t.lots, t.qqs,
